@@ -665,6 +665,32 @@ def _hierarchy_history(ctx):
                         dict(kind="hierarchy_history", steps=res["steps"])); return
 
 
+def _element_copies(ctx):
+    """tokenizers assembled from an element that came back from an ELEMENT-level copy / load (copy.deepcopy(tok.prompt_sequencer),
+    type(ps).load(ps.serialize())): whatever such an object is, name and hashes must tell exactly what == tells — two objects that are
+    not equal must not share a name or a stable hash, two that are equal must share them."""
+    import copy
+    mt, at, utils = _mods()
+    toks = [mt.MazeTokenizerModular()] + [mt.MazeTokenizerModular.from_legacy(m) for m in mt.TokenizationMode]
+    for tok in toks:
+        ps = tok.prompt_sequencer
+        variants = [("tokenizer built directly", tok)]
+        for label, mk in (("prompt sequencer deep-copied on its own", lambda: copy.deepcopy(ps)), ("prompt sequencer loaded on its own", lambda: type(ps).load(ps.serialize()))):
+            try: variants.append((label, mt.MazeTokenizerModular(prompt_sequencer=mk())))
+            except Exception: pass
+        try: variants.append(("tokenizer loaded", mt.MazeTokenizerModular.load(tok.serialize())))
+        except Exception: pass
+        for (la, a), (lb, b) in itertools.combinations(variants, 2):
+            ctx.case(["element-copies", tok.name[:40], la, lb]); ctx.count("element_copy_pairs")
+            try:
+                eq = bool(a == b); same = (a.name == b.name, a.hash_int() == b.hash_int(), hash(a) == hash(b))
+            except Exception as e:
+                continue
+            if eq and not all(same) or (not eq and (same[0] or same[1])):
+                ctx.violate(f"{la} and {lb} of {tok.name[:80]}: == says {eq}, but equal name / equal hash_int / equal hash() = {same}",
+                            dict(kind="element_copies", tokenizer=tok.name, a=la, b=lb, eq=eq, same=list(same))); return
+
+
 def run(ctx):
     warnings.filterwarnings("ignore")
     tables = _classes(ctx)
@@ -673,6 +699,7 @@ def run(ctx):
     _processes(ctx, toks)
     _zanj(ctx, toks)
     _hierarchy_history(ctx)
+    _element_copies(ctx)
     if not ctx.quick:
         _full(ctx)
     ctx.notes.append("hash distinctness over the whole space is a TEST (thorough tier, exhaustive over the real objects), not a theorem; "
